@@ -14,6 +14,7 @@ import base64
 import contextlib
 import copy
 import dataclasses
+import hashlib
 import datetime
 import decimal
 import inspect
@@ -999,6 +1000,15 @@ def cli_ast_problems() -> list[str]:
         if len(binds) != 1 or not calls or any(c not in takes_flag for c in callees):
             problems.append(f"the value given to json.{d.func.attr} ({arg.id}) is not bound once to the result of the "
                             f"flag-taking serialiser functions only (calls: {callees})")
+    # the library is called with the path exactly as the user gave it (no resolve()/expanduser()/absolute()): the CLI's
+    # JSON is the JSON of read_file(<that path>), whose metadata reports that path's name, extension and folder
+    rf = [n for n in ast.walk(tree) if isinstance(n, ast.Call) and
+          (getattr(n.func, "attr", None) == "read_file" or getattr(n.func, "id", None) == "read_file")]
+    if len(rf) != 1:
+        problems.append(f"{len(rf)} read_file calls in cli.py (the model has exactly one)")
+    for c in rf:
+        if len(c.args) != 1 or c.keywords or ast.unparse(c.args[0]) != "args.path":
+            problems.append(f"read_file is not called with the user's argument itself: read_file({', '.join(ast.unparse(a) for a in c.args)})")
     if not any(isinstance(n, ast.Call) and (getattr(n.func, "id", None) or getattr(n.func, "attr", None)) in takes_flag
                for n in ast.walk(tree)):
         problems.append("no serialiser call found in cli.py (translator out of date)")
@@ -1048,6 +1058,38 @@ def make_xls_cases(td: Path):
     else:
         problems.append("shared strings colA/colB not found in mwe.xls")
     return out, problems
+
+
+PATH_FORM_LAYOUT = ("store/notes-v2.md (markdown text), store/blob (same text, no extension), store/table.csv; "
+                    "view/notes.txt -> ../store/notes-v2.md, view/readme.md -> ../store/blob, view/again.txt -> notes.txt, "
+                    "linkdir -> store, view/data.tsv -> ../store/table.csv (all symbolic links)")
+
+
+def make_path_forms(td: Path):
+    """(label, cwd, argument) — spellings of a path argument; every one is a file the library can read."""
+    root = td / "forms"
+    (root / "store").mkdir(parents=True)
+    (root / "view").mkdir()
+    (root / "store" / "notes-v2.md").write_text("# Notes\n\nsecond version\n", encoding="utf-8")
+    (root / "store" / "blob").write_text("content-addressed blob\nline 2\n", encoding="utf-8")
+    (root / "store" / "table.csv").write_text("a,b\n1,2\n", encoding="utf-8")
+    os.symlink("../store/notes-v2.md", root / "view" / "notes.txt")
+    os.symlink("../store/blob", root / "view" / "readme.md")
+    os.symlink("notes.txt", root / "view" / "again.txt")
+    os.symlink("store", root / "linkdir")
+    os.symlink("../store/table.csv", root / "view" / "data.tsv")
+    forms = [
+        ("symlink:other-name-and-extension", root, str(root / "view" / "notes.txt")),
+        ("symlink:target-without-extension", root, str(root / "view" / "readme.md")),
+        ("symlink:link-to-link", root, str(root / "view" / "again.txt")),
+        ("symlink:relative-argument", root, "view/notes.txt"),
+        ("symlink:linked-directory", root, str(root / "linkdir" / "notes-v2.md")),
+        ("symlink:other-extension-same-family", root, "view/data.tsv"),
+        ("relative:plain", root, "store/notes-v2.md"),
+        ("relative:dot-and-dotdot", root / "view", "./../store/table.csv"),
+        ("regular:absolute", root, str(root / "store" / "notes-v2.md")),
+    ]
+    return forms
 
 
 def run_cli(argv):
@@ -1669,11 +1711,17 @@ def run(ctx):
                     # speaks about the shaping/encoding of given results.
                     argv = [str(p), flag] + (["--binary"] if binary else [])
                     orig_read = sharepoint2text.read_file
-                    sharepoint2text.read_file = lambda *a, _b=base, **k: iter(copy.deepcopy(_b))
+                    seen_args = []
+                    sharepoint2text.read_file = lambda *a, _b=base, **k: (seen_args.append((a, k)), iter(copy.deepcopy(_b)))[1]
                     try:
                         rc, out, err = run_cli(argv)
                     finally:
                         sharepoint2text.read_file = orig_read
+                    if rc == 0 and not (len(seen_args) == 1 and len(seen_args[0][0]) == 1 and not seen_args[0][1]
+                                        and os.fspath(seen_args[0][0][0]) == str(p)):
+                        ctx.finding("cli-read_file-argument", f"the CLI does not hand the given path to read_file unchanged: given "
+                                    f"{str(p)!r}, read_file called with {[tuple(map(repr, a)) for a, _ in seen_args][:2]}",
+                                    {**doc_replay(label, p), "argv": argv[1:]})
                     rs = copy.deepcopy(base)
                     several = "one" if len(rs) == 1 else "several"
                     mode = f"{flag}{'+binary' if binary else ''}:{several}"
@@ -1741,6 +1789,72 @@ def run(ctx):
                                      f"{json_term(parsed_by_flag['--json'][0])}, {json_term(parsed_by_flag['--json-unit'][0])})")
                     ctx.count("cli-model-case:" + ("several" if len(base) > 1 else "one") + (":binary" if binary else ""))
 
+        # ---- CLI end to end (read_file NOT patched) over the FORM of the path argument: the CLI's JSON must be the JSON of
+        # the library result for the very path given — regular, relative (several cwd-relative spellings), symbolic links
+        # whose target has another name / extension / folder / no extension, links to links, linked directories
+        forms = make_path_forms(td)
+        ctx.extra["cli_path_forms"] = [f[0] for f in forms]
+
+        def cli_vs_library(form):
+            label_, cwd_, arg_, flag_, binary_ = form
+            old_cwd = os.getcwd()
+            os.chdir(cwd_)
+            try:
+                try:
+                    lib = [r for r in sharepoint2text.read_file(arg_)]
+                    if flag_ == "--json":
+                        per_ = [S.serialize_extraction(r, include_binary=binary_) for r in lib]
+                    else:
+                        per_ = [[S.serialize_extraction(u, include_binary=binary_) for u in r.iterate_units()] for r in lib]
+                    want_ = json.dumps(per_[0] if len(lib) == 1 else per_) + "\n"
+                except Exception as e:  # noqa
+                    want_ = ("LIBRARY-RAISES", type(e).__name__)
+                rc_, out_, err_ = run_cli([arg_, flag_] + (["--binary"] if binary_ else []))
+            finally:
+                os.chdir(old_cwd)
+            if isinstance(want_, tuple):
+                return ("both-fail",) if rc_ != 0 and not out_.strip() else ("cli-succeeds-library-raises", want_[1], out_[:200])
+            if rc_ == 0 and out_ == want_:
+                return ("same", hashlib.sha1(out_.encode("utf-8", "surrogatepass")).hexdigest()[:12])
+            meta = lambda s: [m[:120] for m in __import__("re").findall(r'"(?:filename|file_extension|folder_path)": "[^"]*"', s)][:6]  # noqa: E731
+            return ("differs", rc_, meta(out_), meta(want_), err_[-160:])
+
+        form_cases = [(lb, str(cw), a, fl, b) for lb, cw, a in forms for fl in ("--json", "--json-unit") for b in (False,)]
+        form_cases += [(lb, str(cw), a, "--json", True) for lb, cw, a in forms[:3]]
+        for fc in form_cases:
+            res = cli_vs_library(fc)
+            ctx.case(("cli-path-form", fc[0], fc[3]), True, kind="cli-path-form:" + fc[0].split(":")[0])
+            if res[0] not in ("same", "both-fail"):
+                ctx.finding(f"cli-differs-from-library:{fc[0].split(':')[0]}",
+                            f"CLI {fc[3]} for the path form '{fc[0]}' (argument {fc[2]!r}) is not the JSON of read_file of that "
+                            f"path: {res}", {"form": fc[0], "cwd": "<temp dir>", "argument": fc[2], "flag": fc[3], "result": res,
+                                             "layout": PATH_FORM_LAYOUT})
+        common.env_sweep(ctx, "cli-json-vs-library", cli_vs_library, form_cases[:ctx.n(16, 40)], describe=lambda c: f"{c[0]} {c[3]}")
+
+    # ---- the environment must not matter: DEBUG logging, worker thread, time zones, cwd — for the round trip of generated
+    # instances and for extraction -> to_json of small fixtures
+    sample = list(range(0, len(insts), max(1, len(insts) // ctx.n(150, 400))))
+
+    def rt_view(i):
+        x_ = copy.deepcopy(insts[i])
+        tj_ = S.serialize_extraction(x_)
+        tn_ = S.serialize_extraction(x_, include_binary=False)
+        try:
+            y_ = S.deserialize_extraction(json.loads(json.dumps(tj_)))
+            back = (type(y_).__name__, jtext(S.serialize_extraction(y_)))
+        except Exception as e:  # noqa
+            back = ("EXC", type(e).__name__)
+        return hashlib.sha1(repr((jtext(tj_), jtext(tn_), back)).encode("utf-8", "surrogatepass")).hexdigest()[:16]
+
+    common.env_sweep(ctx, "instance-roundtrip", rt_view, sample, describe=lambda i: f"instance #{i} ({type(insts[i]).__name__})")
+    small_fx = [str(p) for p in fixture_files() if p.stat().st_size < 60_000 and "password" not in str(p)][:ctx.n(24, 60)]
+
+    def fx_view(path):
+        rs_ = list(sharepoint2text.read_file(path))
+        return hashlib.sha1("\n".join(jtext(S.serialize_extraction(r, include_binary=False)) for r in rs_)
+                            .encode("utf-8", "surrogatepass")).hexdigest()[:16]
+
+    common.env_sweep(ctx, "fixture-to_json", fx_view, small_fx, describe=lambda s_: s_.split("/resources/")[-1])
     mark("cli")
     # model vs implementation on the small real results and the CLI payloads
     rcases = []
